@@ -60,10 +60,12 @@ type SeqTable struct {
 
 // SeqOp is one step of an explicit operation list.
 type SeqOp struct {
-	Op    string         `json:"op"` // emit | sync | upsert | delete
-	Row   map[string]any `json:"row"`
-	Table string         `json:"table"`
-	Key   []any          `json:"key"`
+	Op    string           `json:"op"` // emit | sync | upsert | delete | register (a table registered again under its name, replacing the earlier one)
+	Rows  []map[string]any `json:"rows"`
+	Keys  []string         `json:"keys"`
+	Row   map[string]any   `json:"row"`
+	Table string           `json:"table"`
+	Key   []any            `json:"key"`
 }
 
 func decodeRow(r map[string]any) map[string]any {
@@ -300,6 +302,18 @@ func RunSeq(sc SeqScenario) (evs []Ev, inconclusive string) {
 					return in.Events(), fmt.Sprintf("row %d not fully processed", i+1)
 				}
 			}
+		case "register":
+			rows := make([]map[string]any, len(op.Rows))
+			arows := make([]any, len(op.Rows))
+			for k, r := range op.Rows {
+				rows[k] = decodeRow(r)
+				arows[k] = AbsRow(rows[k])
+			}
+			src, err := s.RegisterTable(op.Table, rows, op.Keys...)
+			if err == nil {
+				srcs[op.Table] = src
+			}
+			in.Log(Ev{"tr": sc.Tr, "e": "table", "name": op.Table, "rows": arows, "err": b2i(err != nil)})
 		case "upsert":
 			err := s.UpsertTable(op.Table, decodeRow(op.Row))
 			in.Log(Ev{"tr": sc.Tr, "e": "upsert", "i": i + 1, "table": op.Table, "row": AbsRow(decodeRow(op.Row)), "err": b2i(err != nil)})
